@@ -197,7 +197,7 @@ void SCPI_RegSet(scpi_t * context, scpi_reg_name_t name, scpi_reg_val_t val) {
                     enable = 0xFFFF;
                 }
 
-                scpi_bool_t summary = val & enable;
+                scpi_bool_t summary = (val & enable) != 0;
 
                 name = register_group.parent_reg;
                 val = SCPI_RegGet(context, register_group.parent_reg);
